@@ -47,7 +47,29 @@ let str_cmp_of s : string -> string -> int =
 (* how keys / values are written: [parse]/[show] in trace items, [raw] as fmt's %v prints them *)
 type 'a codec = { parse : string -> 'a; show : 'a -> string; raw : 'a -> string; zero : 'a }
 let int_codec = { parse = int_of_string; show = string_of_int; raw = string_of_int; zero = 0 }
-let str_codec = { parse = (fun s -> if s = "~" then "" else s); show = (fun s -> if s = "" then "~" else s);
+(* string tokens: "~" = the empty string; %XX (upper-case hex) = that byte; letters and digits as they are *)
+let is_alnum c = (c >= 'a' && c <= 'z') || (c >= 'A' && c <= 'Z') || (c >= '0' && c <= '9')
+let unhex c = if c >= '0' && c <= '9' then Some (Char.code c - 48) else if c >= 'A' && c <= 'F' then Some (Char.code c - 55) else None
+let unesc_token s =
+  if not (String.contains s '%') then s else begin
+    let b = Buffer.create (String.length s) and i = ref 0 and n = String.length s in
+    while !i < n do
+      (match (if s.[!i] = '%' && !i + 2 < n then (match unhex s.[!i + 1], unhex s.[!i + 2] with Some h, Some l -> Some (16 * h + l) | _ -> None) else None) with
+       | Some v -> Buffer.add_char b (Char.chr v); i := !i + 3
+       | None -> Buffer.add_char b s.[!i]; incr i)
+    done;
+    Buffer.contents b
+  end
+let esc_with keep s =
+  let b = Buffer.create (String.length s) in
+  String.iter (fun c -> match keep c with
+    | Some c' -> Buffer.add_char b c'
+    | None -> Buffer.add_string b (Printf.sprintf "%%%02X" (Char.code c))) s;
+  Buffer.contents b
+let esc_token = esc_with (fun c -> if is_alnum c then Some c else None)
+(* String() as written into the trace: ' ' as '_', letters, digits and [ ] : - as they are, the rest %XX *)
+let esc_string = esc_with (fun c -> if c = ' ' then Some '_' else if is_alnum c || c = '[' || c = ']' || c = ':' || c = '-' then Some c else None)
+let str_codec = { parse = (fun s -> if s = "~" then "" else unesc_token s); show = (fun s -> if s = "" then "~" else esc_token s);
                   raw = (fun s -> s); zero = "" }
 
 let split_on c s = if s = "" then [] else String.split_on_char c s
@@ -189,10 +211,11 @@ let limit_memo (b : M.z) (n : M.z) : M.z =
   | Some v -> v
   | None -> let v = M.limit_capped b n in Hashtbl.add limit_tbl key v; v
 
-(* Map.String: "omap[" k:v k:v ... "]" with %v for keys and values; blanks shown as '_' *)
+(* Map.String: "omap[" k:v k:v ... "]" with %v for keys and values, one blank between entries; written
+   into the trace by esc_string *)
 let fmt_string kc vc = function
   | None -> "omap[]"
-  | Some es -> "omap[" ^ String.concat "_" (List.map (fun (k, v) -> kc.raw k ^ ":" ^ vc.raw v) es) ^ "]"
+  | Some es -> esc_string ("omap[" ^ String.concat " " (List.map (fun (k, v) -> kc.raw k ^ ":" ^ vc.raw v) es) ^ "]")
 
 let show_keys kc = function [] -> "empty" | ks -> String.concat "," (List.map kc.show ks)
 
